@@ -620,6 +620,21 @@ func runClique(t *core.Tape, info *core.RunInfo) *core.Violation {
 		parts[i] = &cpart{id: i, st: genStmt(suite, t), verifies: make([]bool, k),
 			rnd: suite.XOF(core.ExpandBytes(t.Draw("cfg.seed", 1<<40)+uint64(i)*977, 32))}
 	}
+	// a ring: every participant proves the SAME statement over the same public points (each from its
+	// own copy of the secrets). Per-peer verifier state that leaks from one peer to the next is only
+	// visible then (seed C14k: a silent peer was verified with the previous peer's proof bytes).
+	if k >= 3 && t.Bool("cfg.samestmt", 300) {
+		for i := 1; i < k; i++ {
+			c := *parts[0].st
+			c.choice = map[proof.Predicate]int{}
+			for pr, b := range parts[0].st.choice {
+				c.choice[pr] = b
+			}
+			parts[i].st = &c
+		}
+		info.Config["same_statement"] = true
+		info.Faults["same-statement-for-all"]++
+	}
 	for i, p := range parts {
 		for j := range parts {
 			if j != i && t.Bool("cfg.verify", 600) {
